@@ -219,7 +219,11 @@ class _FilePersistence(_ConcretePersistence):
         self._id_to_benchmark: list[Benchmark] = []
 
     def _discard_old_data(self):
-        self._truncate_file(self._data_filename)
+        try:
+            self._truncate_file(self._data_filename)
+        except OSError as err:
+            raise UIError("The data file %s could not be cleared. %s.\n"
+                          % (escape_braces(str(self._data_filename)), err.strerror), err)
 
     @staticmethod
     def _truncate_file(filename):
